@@ -115,6 +115,14 @@ Fixpoint recheck_dests (r : xrepo) (ps : list path) : xrepo * outcome :=
       end
   end.
 
+(* check_untracked_destinations (the repair of P4, in the tree now): something is at the path in the
+   workspace (symlink_metadata().is_ok(): a file, a link, dangling or not, or a directory) *)
+Definition ws_lexists (f : fsys) (d : path) : bool :=
+  match wget f d with
+  | Some _ => true
+  | None => existsb (fun pe => starts_with (d ++ [slash]) (fst pe)) (ws f)
+  end.
+
 (* ---- copy ------------------------------------------------------------------------------------------ *)
 Record copy_opts := { c_as : option method; c_cforce : bool; c_no_recheck : bool; c_name_only : bool }.
 (* one planned (source, destination) pair; cd_ent = the entity of an already recorded destination *)
@@ -156,6 +164,12 @@ Definition recorded_as_file (r : xrepo) (p : path) : bool :=
 (* which pairs a copy will carry out ([skipped]: some pair of a directory destination was refused),
    or the outcome with which it stops before changing anything *)
 Inductive cplanned := CRefused (oc : outcome) | CPlanned (plan : list cpair) (skipped : bool).
+(* without --force, a planned destination that is not recorded but exists in the workspace stops the
+   command before any record changes *)
+Definition untracked_dest_exists (r : xrepo) (plan : list cpair) : bool :=
+  existsb (fun c => negb (pair_taken c) && ws_lexists (xfs r) (cd_path c)) plan.
+Definition copy_checked (o : copy_opts) (r : xrepo) (plan : list cpair) (skipped : bool) : cplanned :=
+  if negb (c_cforce o) && untracked_dest_exists r plan then CRefused Err else CPlanned plan skipped.
 Definition copy_plan (o : copy_opts) (src dst : bytes) (r : xrepo) : cplanned :=
   let srcs := map snd (sources r src) in
   if Nat.ltb 1 (length srcs) && negb (ends_slash dst) then CRefused Err
@@ -165,15 +179,15 @@ Definition copy_plan (o : copy_opts) (src dst : bytes) (r : xrepo) : cplanned :=
     else if existsb (changed r) srcs then CRefused Err
     else
       let pairs := map (fun x => plan_pair r x (dest_path (c_name_only o) dir x)) srcs in
-      CPlanned (filter (fun c => c_cforce o || negb (pair_taken c)) pairs)
-               (existsb (fun c => negb (c_cforce o) && pair_taken c) pairs)
+      copy_checked o r (filter (fun c => c_cforce o || negb (pair_taken c)) pairs)
+                       (existsb (fun c => negb (c_cforce o) && pair_taken c) pairs)
   else
     if existsb (changed r) srcs then CRefused Err
     else match srcs with
          | [] => CRefused Panic                           (* source_xvc_paths.keys().next().unwrap() *)
          | x :: _ =>
              let c := plan_pair r x dst in
-             if pair_taken c && negb (c_cforce o) then CRefused Err else CPlanned [c] false
+             if pair_taken c && negb (c_cforce o) then CRefused Err else copy_checked o r [c] false
          end.
 Definition copy_cmd (o : copy_opts) (src dst : bytes) (r : xrepo) : xrepo * outcome :=
   match copy_plan o src dst r with
@@ -236,6 +250,8 @@ Definition move_apply (fl : flags) (o : move_opts) (r : xrepo) (l : list (N * fr
   end.
 
 Inductive mplanned := MRefused (oc : outcome) | MPlanned (l : list (N * frec * path)).
+Definition move_checked (r : xrepo) (l : list (N * frec * path)) : mplanned :=
+  if existsb (fun ed => ws_lexists (xfs r) (snd ed)) l then MRefused Err else MPlanned l.
 Definition move_plan (src dst : bytes) (r : xrepo) : mplanned :=
   let srcs := sources r src in
   if Nat.ltb 1 (length srcs) && negb (ends_slash dst) then MRefused Err
@@ -245,12 +261,12 @@ Definition move_plan (src dst : bytes) (r : xrepo) : mplanned :=
     else if existsb (fun ex => changed r (snd ex)) srcs then MRefused Err
     else
       let l := map (fun ex => (fst ex, snd ex, join dir (r_path (snd ex)))) srcs in
-      if existsb (fun ed => stored r (snd ed)) l then MRefused Err else MPlanned l
+      if existsb (fun ed => stored r (snd ed)) l then MRefused Err else move_checked r l
   else
     if existsb (fun ex => changed r (snd ex)) srcs then MRefused Err
     else match srcs with
          | [] => MRefused Panic
-         | (e, x) :: _ => if stored r dst then MRefused Err else MPlanned [(e, x, dst)]
+         | (e, x) :: _ => if stored r dst then MRefused Err else move_checked r [(e, x, dst)]
          end.
 Definition move_cmd (fl : flags) (o : move_opts) (src dst : bytes) (r : xrepo) : xrepo * outcome :=
   match move_plan src dst r with
